@@ -77,6 +77,28 @@ PROPS = {
              "and after. Non-trivial = the permutation changed a list of length>=2 AND some resource exposes >=2 attributes or >=2 relationships.",
         assumptions=COMMON_ASSUMPTIONS + ["map iteration order is sampled by the Go runtime, not enumerated (DESIGN §6 C11 gives the probability bound)"],
     ),
+    "C06": dict(
+        regress="TestC06Regress",
+        subs=[
+            dict(test="TestC06Exhaustive", kind="plain"),
+            dict(test="TestC06Literal", quick=40000, thorough=400000),
+            dict(test="TestC06Payload", quick=10000, thorough=80000),
+        ],
+        rule="Meaning-first literals: the generator draws what the JSON text denotes (integer as big.Int relative to the target width's "
+             "boundaries +-3, wrap candidates n+k*2^w, magnitudes to 2^70; string; instant; byte string; bool; null; array; object) and renders it "
+             "in varied spellings (plain, -0, .0 fraction, exponent forms, non-integral; \\u/short/slash escapes; Z/+00:00/-00:00/offset zones, 0-12 "
+             "fractional digits, t/space separators; base64 std/unpadded/URL/newline/dirty trailing bits), crossed with all 28 kinds (40% ill-typed "
+             "on purpose) through Attr.UnmarshalToType, and through UnmarshalResource with full payloads (relationship data null / identifier / "
+             "list with repeats / links-only / ill-shaped, absent fields). Exhaustive sub-space: every integer literal in [-2^16-300, 2^16+300] on "
+             "int8/uint8/int16/uint16 x nullable. Oracle: accepted => exact Go type and exactly the denoted value, null only for nullable, "
+             "relationships hold exactly the listed IDs, absent fields zero, re-marshal gives the same JSON meanings. Rejection is always allowed. "
+             "Non-trivial = literal within +-3 of a boundary of the target kind, ill-typed for it, or non-canonically spelled.",
+        assumptions=COMMON_ASSUMPTIONS + [
+            "a panicking call makes the case inapplicable here (panic freedom is C05's subject); such cases are labelled discarded_panic",
+            "time literals with >9 fractional digits may be stored truncated or rounded to the nanosecond",
+            "non-canonical base64 is compared against a lenient reference decoding",
+        ],
+    ),
 }
 
 LEVEL_NOTE = ("Trusted base: Go toolchain and runtime, encoding/json, reflect, rapid v1.3.0, the harness' own generators and "
@@ -84,6 +106,11 @@ LEVEL_NOTE = ("Trusted base: Go toolchain and runtime, encoding/json, reflect, r
               "violation is not a proof.")
 
 MANIFEST_TEXT = {
+    "C06": dict(
+        technique="property-based testing (rapid) with meaning-first literal generation + exhaustive enumeration of 8/16-bit integer literals",
+        level_text="Exploration: literals whose meaning is known by construction are crossed with all 28 kinds; all 8- and 16-bit integer literals (+-300 beyond 2^16) are enumerated exhaustively on every run.",
+        level_note=LEVEL_NOTE,
+    ),
     "C01": dict(
         technique="property-based testing (rapid): round-trip oracle over generated schemas, types and boundary-biased values",
         level_text="Exploration: tens of thousands of generated resources over all 28 kinds in both implementations, compared field by field with a pre-marshal snapshot.",
